@@ -481,3 +481,39 @@ def refresh(ctx, L, rule="R-REFRESH"):
                          "timeout armed at its start (long BAM, many windows) is cut off although packets keep arriving", ext[0][1].node)
     if n < 2:
         ctx.unknown(rule, "incomplete-append paths not found in %s (%d)" % (f.qual, n))
+
+
+def bam_fresh(ctx, L, rule="R-BAM-FRESH"):
+    """a broadcast announcement that meets an unfinished receive session under the same key never leaves that session's
+    collected data in place (the announcement's data packets cannot be told apart from the old ones)"""
+    from .common import lits
+    f = L.cm
+    bam = L.ctl.get("BAM")
+    n = 0
+    seen = {}
+    for r in runs(ctx, f):
+        gl = lits(r.guards())
+        if not any(p and g[0] == "cmp" and g[1] == "==" and ("c", bam) in (g[2], g[3]) and contains(g, ("sub", ("p", "data"), ("c", 0))) for g, p in gl):
+            continue
+        busy = [g for g, p in gl if p and g[0] == "cmp" and g[1] == "in" and g[3] == ("attr", SELF, "_rcv_buffer")]
+        if not busy:
+            continue
+        key = busy[0][2]
+        E = ("sub", ("attr", SELF, "_rcv_buffer"), key)
+        n += 1
+        gone = any((e.kind == "del" and e.target == E) or (e.kind == "store" and e.target == E and e.value[0] == "dict") or
+                   (e.kind == "call" and mname(e.value) == "pop" and e.value[1][1] == ("attr", SELF, "_rcv_buffer") and e.value[2][:1] == (key,))
+                   for _, e in r.effects())
+        inst = "%s BAM announcement meeting an open receive session: the old session is dropped or replaced" % L.tag
+        if gone:
+            seen.setdefault(inst, None)
+        elif seen.get(inst) is None:
+            seen[inst] = r.recs[-1].ev.node if r.recs else f.node
+    for inst, bad in seen.items():
+        if bad is None:
+            ctx.holds(rule, inst)
+        else:
+            ctx.violated(rule, f, inst, "the half-filled session survives the new announcement: the data packets of the new broadcast carry the same source "
+                         "(and session number) and are appended to the old data - the application is handed a mixture of two messages", bad)
+    if n == 0:
+        ctx.unknown(rule, "%s: no BAM path with an occupied receive key found" % f.qual)
